@@ -62,8 +62,8 @@ def run(ctx):
         corpus = [l.rstrip("\n") for l in open(os.path.join(here, "corpus.ops"))
                   if l.strip() and not l.startswith("#")]
         scenarios = split_scenarios(corpus)
-        nq = ctx.scale(1500, 60000)
-        nw = ctx.scale(1200, 40000)
+        nq = ctx.scale(1500, 20000)
+        nw = ctx.scale(1200, 12000)
         scenarios += [c12gen.gen_queue_scenario(ctx.rng) for _ in range(nq)]
         scenarios += [c12gen.gen_writer_scenario(ctx.rng) for _ in range(nw)]
     qs = [s for s in scenarios if s[0].startswith("q ")]
